@@ -239,7 +239,7 @@ class PDFResourceManager:
                 font = PDFCIDFont(self, spec)
             elif subtype == "Type0":
                 # Type0 Font
-                dfonts = list_value(spec["DescendantFonts"])
+                dfonts = list_value(spec.get("DescendantFonts", []))
                 assert dfonts
                 subspec = dict_value(dfonts[0]).copy()
                 for k in ("Encoding", "ToUnicode"):
